@@ -13,6 +13,7 @@ import argparse, concurrent.futures as cf, hashlib, json, os, shutil, subprocess
 
 VERIF = os.path.dirname(os.path.dirname(os.path.abspath(__file__)))
 SIM = os.path.join(VERIF, "sim")
+REPO = "/repo"  # the harness module (sim/go.mod) replaces the milvus-cdc modules with /repo/core and /repo/server
 BUILD = os.path.join(VERIF, ".build")
 WORK = os.path.join(VERIF, ".work")
 BIN = os.path.join(BUILD, "sim.test")
@@ -27,32 +28,66 @@ def log(*a):
     print(*a, flush=True)
 
 
+def source_stamp():
+    """Content hash of everything the harness binary is built from: /repo's working tree (not .git), the harness sources
+    and the toolchain version. The binary is rebuilt whenever this changes; when it has not changed since the last successful
+    build the toolchain is not started at all (nineteen checks starting side by side would otherwise start nineteen of them)."""
+    import hashlib
+    h = hashlib.sha256()
+    for root in (REPO, SIM):
+        for dp, dns, fns in os.walk(root):
+            dns[:] = sorted(d for d in dns if d != ".git")
+            for fn in sorted(fns):
+                fp = os.path.join(dp, fn)
+                if not os.path.isfile(fp) or os.path.islink(fp):
+                    continue
+                h.update(fp.encode() + b"\0")
+                try:
+                    with open(fp, "rb") as f:
+                        h.update(hashlib.sha256(f.read()).digest())
+                except OSError:
+                    h.update(b"?")
+    h.update(("go1.26.8|tags=verif|" + os.environ.get("VERIF_BUILD_SALT", "")).encode())
+    return h.hexdigest()
+
+
 def build():
     os.makedirs(BUILD, exist_ok=True)
     t0 = time.time()
     # built beside the final name and renamed into place: several checks may build (and run the binary) at the same time
     tmp = "%s.%d.tmp" % (BIN, os.getpid())
+    stampf = BIN + ".stamp"
     lock = os.open(os.path.join(BUILD, "build.lock"), os.O_CREAT | os.O_RDWR, 0o644)
-    fcntl.flock(lock, fcntl.LOCK_EX)  # one build at a time on this machine; the others wait and hit the build cache
+    fcntl.flock(lock, fcntl.LOCK_EX)  # one build at a time on this machine; the others wait and find the stamp
     try:
-        env = dict(GOENV, GOMAXPROCS=os.environ.get("VERIF_BUILD_PROCS", "8"))
-        for attempt in range(6):
-            p = subprocess.run(["go1.26.8", "test", "-c", "-p", "4", "-tags", "verif", "-o", tmp, "."], cwd=SIM, env=env,
+        stamp = source_stamp()
+        try:
+            if os.path.exists(BIN) and open(stampf).read().strip() == stamp and not os.environ.get("VERIF_FORCE_BUILD"):
+                return time.time() - t0
+        except OSError:
+            pass
+        for attempt in range(14):
+            # fewer toolchain threads on the later attempts: the machine is short of them
+            env = dict(GOENV, GOMAXPROCS=os.environ.get("VERIF_BUILD_PROCS", "8" if attempt == 0 else "2"))
+            p = subprocess.run(["go1.26.8", "test", "-c", "-p", "4" if attempt == 0 else "1", "-tags", "verif", "-o", tmp, "."], cwd=SIM, env=env,
                                stdout=subprocess.PIPE, stderr=subprocess.STDOUT, text=True)
             if p.returncode == 0 or not any(m in p.stdout for m in RESOURCE_MARKS + ("goroutine ",)):
                 break
-            time.sleep(3 + attempt * 3)  # the toolchain itself died for lack of threads: wait for the machine to calm down
+            time.sleep(min(3 + attempt * 4, 40))  # the toolchain itself died for lack of threads: wait for the machine to calm down
+        if p.returncode != 0:
+            log("BUILD FAILED (exit 2):\n" + p.stdout[-6000:])
+            try:
+                os.remove(tmp)
+            except OSError:
+                pass
+            sys.exit(2)
+        os.replace(tmp, BIN)
+        with open(stampf + ".tmp", "w") as f:
+            f.write(stamp)
+        os.replace(stampf + ".tmp", stampf)
     finally:
         fcntl.flock(lock, fcntl.LOCK_UN)
         os.close(lock)
-    if p.returncode != 0:
-        log("BUILD FAILED (exit 2):\n" + p.stdout[-6000:])
-        try:
-            os.remove(tmp)
-        except OSError:
-            pass
-        sys.exit(2)
-    os.replace(tmp, BIN)
     return time.time() - t0
 
 
@@ -209,39 +244,80 @@ def matches_known(known, prop, v):
     return None
 
 
+def worker_token():
+    """A machine-wide token for one extra driver thread (file locks under .build/workers): however many checks run side by
+    side, together they keep at most N extra threads, so a machine with a small process/thread allowance is not exhausted.
+    Returns a descriptor to close, or None when no token is free."""
+    n = int(os.environ.get("VERIF_WORKERS", "0") or 0) or min(20, (os.cpu_count() or 4) + 4)
+    d = os.path.join(BUILD, "workers")
+    os.makedirs(d, exist_ok=True)
+    start = (os.getpid() * 13 + int(time.time() * 1000)) % n
+    for k in range(n):
+        f = os.open(os.path.join(d, "w-%02d.lock" % ((start + k) % n)), os.O_CREAT | os.O_RDWR, 0o644)
+        try:
+            fcntl.flock(f, fcntl.LOCK_EX | fcntl.LOCK_NB)
+            return f
+        except OSError:
+            os.close(f)
+    return None
+
+
 def parallel_map(fn, items, jobs):
-    """Runs fn over items on up to `jobs` threads; survives a machine that refuses new threads (falls back to fewer workers,
-    in the end to the calling thread)."""
+    """Runs fn over items on up to `jobs` threads. The calling thread always works; each extra thread needs a machine-wide
+    token (worker_token) and more are started whenever an item finishes and a token is free. Survives a machine that refuses
+    new threads (fewer workers, in the end only the calling thread)."""
     import threading, queue
     q = queue.Queue()
     for i, it in enumerate(items):
         q.put((i, it))
     out = [None] * len(items)
-    errs = []
-
-    def worker():
-        while True:
-            try:
-                i, it = q.get_nowait()
-            except queue.Empty:
-                return
-            try:
-                out[i] = fn(it)
-            except Exception as e:  # noqa
-                errs.append(e)
-                out[i] = {"status": "harness_error", "harness": "driver: %r" % (e,), "plan": it if isinstance(it, dict) else None, "stats": {}, "probes": {}}
-
     threads = []
-    for _ in range(max(1, jobs) - 1):
+    tl = threading.Lock()
+    live = [1]
+
+    def grow():
+        with tl:
+            while live[0] < max(1, jobs) and q.qsize() > 0:
+                tok = worker_token()
+                if tok is None:
+                    return
+                try:
+                    t = threading.Thread(target=worker, args=(tok,), daemon=True)
+                    live[0] += 1
+                    t.start()
+                    threads.append(t)
+                except RuntimeError:
+                    live[0] -= 1
+                    os.close(tok)
+                    return
+
+    def worker(tok):
         try:
-            t = threading.Thread(target=worker, daemon=True)
-            t.start()
-            threads.append(t)
-        except RuntimeError:
+            while True:
+                try:
+                    i, it = q.get_nowait()
+                except queue.Empty:
+                    return
+                try:
+                    out[i] = fn(it)
+                except Exception as e:  # noqa
+                    out[i] = {"status": "harness_error", "harness": "driver: %r" % (e,), "plan": it if isinstance(it, dict) else None, "stats": {}, "probes": {}}
+                grow()
+        finally:
+            if tok is not None:
+                with tl:
+                    live[0] -= 1
+                os.close(tok)
+
+    grow()
+    worker(None)
+    while True:
+        with tl:
+            ts = list(threads)
+        alive = [t for t in ts if t.is_alive()]
+        if not alive:
             break
-    worker()
-    for t in threads:
-        t.join()
+        alive[0].join()
     return out
 
 
